@@ -32,6 +32,8 @@ def run(ctx):
     ctx.guard(rule_a, ctx, ix)
     ctx.guard(rule_b, ctx, ix)
     ctx.guard(rule_c, ctx, ix)
+    ctx.guard(rule_d, ctx, ix)
+    ctx.guard(rule_e, ctx, ix)
 
 
 def _table(ix, mod, name):
@@ -196,3 +198,144 @@ def rule_c(ctx, ix):
              unparse(st.value) == unparse(stores[0].targets[0].value)]
     ctx.ob(R, f.construct + ' return', 'the assembled result is returned after all chunks', not rets and bool(after),
            detail='the chunk loop returns early or the assembled result is not returned', where=f.where, nontrivial=False)
+
+
+# ---------------------------------------------------------------------------------------
+# sign domain for the widening of the upper histogram limit
+POS, NONNEG, SIGNOF, SIGNOF_NZ, UNKNOWN = 'pos', 'nonneg', 'sign-of-operand', 'sign-of-operand, never zero', 'unknown'
+
+
+def _sign(e, var):
+    """Sign of expression ``e`` for every value of ``var`` (sign domain; ``SIGNOF`` = the sign of var)."""
+    if isinstance(e, ast.Constant) and isinstance(e.value, (int, float)):
+        return POS if e.value > 0 else (NONNEG if e.value == 0 else UNKNOWN)
+    if isinstance(e, ast.Name):
+        return SIGNOF if e.id == var else UNKNOWN
+    if isinstance(e, ast.Call):
+        fn = unparse(e.func)
+        if fn in ('abs', 'np.abs', 'np.absolute', 'np.fabs') and len(e.args) == 1:
+            inner = _sign(e.args[0], var)
+            return POS if inner in (POS, SIGNOF_NZ) else NONNEG
+        if fn == 'np.spacing' and len(e.args) == 1:
+            # numpy: the spacing carries the sign of its argument, and is never zero
+            inner = _sign(e.args[0], var)
+            return {POS: POS, NONNEG: POS, SIGNOF: SIGNOF_NZ, SIGNOF_NZ: SIGNOF_NZ}.get(inner, UNKNOWN)
+        return UNKNOWN
+    if isinstance(e, ast.BinOp) and isinstance(e.op, ast.Mult):
+        a, b = _sign(e.left, var), _sign(e.right, var)
+        if UNKNOWN in (a, b):
+            return UNKNOWN
+        if a == POS and b == POS:
+            return POS
+        if {a, b} <= {POS, NONNEG}:
+            return NONNEG
+        if {a, b} == {POS, SIGNOF}:
+            return SIGNOF
+        if {a, b} == {POS, SIGNOF_NZ}:
+            return SIGNOF_NZ
+        return UNKNOWN
+    return UNKNOWN
+
+
+def rule_d(ctx, ix):
+    """The closed upper end of the histogram range: widened upwards, in the space the bins are computed in."""
+    R = 'C10.d'
+    ctx.describe(R, 'the upper histogram limit is widened by a positive amount, after the transformation to log space, and that limit is '
+                    'the one handed to the binning routine', floor=6)
+    f = ix.cls('glue.core.data.Data').resolve_func('compute_histogram')
+    if f is None:
+        raise AnalysisError('Data.compute_histogram vanished')
+    stmts = list(walk_no_nested(f.node))
+    hist = [c for c in calls_in(f.node) if call_name(c) in ('histogram1d', 'histogram2d')]
+    if len(hist) != 2:
+        raise AnalysisError('Data.compute_histogram: the two binning calls are not recognised')
+    for var in ('xmax', 'ymax'):
+        nudges = [st for st in stmts if isinstance(st, ast.AugAssign) and isinstance(st.target, ast.Name) and st.target.id == var]
+        ctx.ob(R, '%s %s widened' % (f.construct, var), 'the upper limit is widened (the binning routine excludes its upper end)',
+               len(nudges) == 1 and isinstance(nudges[0].op, ast.Add),
+               detail='Data.compute_histogram no longer widens %s: values equal to the upper limit fall out of the last bin' % var, where=f.where)
+        if len(nudges) != 1:
+            continue
+        nd = nudges[0]
+        sg = _sign(nd.value, var)
+        ctx.idiom(R, '%s %s sign' % (f.construct, var), 'the amount added to the upper limit is positive for every limit',
+                  accepted=sg in (POS,), absent=sg in (SIGNOF, SIGNOF_NZ, NONNEG),
+                  detail_absent='Data.compute_histogram widens the upper limit with `%s`, whose sign is %s: for a negative limit (or a '
+                                'log-space limit below 1) the limit moves inwards, values equal to it are dropped and the bin totals are '
+                                'smaller than the number of in-range values' % (norm(nd), 'that of the limit' if sg in (SIGNOF, SIGNOF_NZ) else 'not strictly positive'),
+                  shape=norm(nd), where=where(f, nd))
+        later = [st for st in stmts if isinstance(st, ast.Assign) and any(isinstance(t, ast.Name) and t.id == var for t in st.targets)
+                 and st.lineno > nd.lineno]
+        ctx.ob(R, '%s %s order' % (f.construct, var), 'the limit is widened after its last transformation (log space)', not later,
+               detail='Data.compute_histogram widens %s and transforms it afterwards with `%s`: in log space the widening shrinks below '
+                      'the resolution of the limit, and values equal to the upper limit are dropped'
+                      % (var, norm(later[0]) if later else ''), where=where(f, nd))
+    for c in hist:
+        pm_names = set()
+        for st in stmts:
+            if isinstance(st, ast.Assign) and unparse(st.targets[0]) == 'range' and st.lineno < c.lineno:
+                last = st
+                pm_names = {x.id for x in ast.walk(st.value) if isinstance(x, ast.Name)}
+        need = {'xmin', 'xmax'} if call_name(c) == 'histogram1d' else {'xmin', 'xmax', 'ymin', 'ymax'}
+        rng = [k.value for k in c.keywords if k.arg == 'range']
+        ctx.ob(R, '%s %s range' % (f.construct, call_name(c)), 'the binning routine receives the (transformed, widened) limits',
+               bool(rng) and unparse(rng[0]) == 'range' and need <= pm_names,
+               detail='Data.compute_histogram no longer hands %s to %s' % (sorted(need), call_name(c)), where=where(f, c))
+
+
+# statistics whose value changes when every value is repeated the same number of times: a total does, and so does an
+# interpolated percentile ([0, 1] -> 25th = 0.25, [0, 0, 1, 1] -> 0.0); extremes, the mean and the median do not
+REPETITION_SENSITIVE = {'sum', 'percentile'}
+
+
+def _stat_excluded(test, var):
+    """Set of statistic names the guard certainly excludes on its true branch; None when the guard does not mention the statistic."""
+    out, seen = set(), False
+    for a in ([test] if not (isinstance(test, ast.BoolOp) and isinstance(test.op, ast.And)) else test.values):
+        if isinstance(a, ast.BoolOp) and isinstance(a.op, ast.And):
+            sub_out = _stat_excluded(a, var)
+            if sub_out is not None:
+                seen = True
+                out |= sub_out
+            continue
+        if isinstance(a, ast.Compare) and len(a.ops) == 1 and unparse(a.left) == var:
+            seen = True
+            rhs = a.comparators[0]
+            if isinstance(a.ops[0], ast.NotEq) and isinstance(rhs, ast.Constant):
+                out.add(rhs.value)
+            elif isinstance(a.ops[0], ast.NotIn) and isinstance(rhs, (ast.Tuple, ast.List, ast.Set)):
+                out |= {e.value for e in rhs.elts if isinstance(e, ast.Constant)}
+            elif isinstance(a.ops[0], (ast.In, ast.Eq)):
+                allowed = {e.value for e in (rhs.elts if isinstance(rhs, (ast.Tuple, ast.List, ast.Set)) else [rhs]) if isinstance(e, ast.Constant)}
+                out |= set(PLAIN) - allowed
+            else:
+                return 'unrecognised'
+    return out if seen else None
+
+
+def rule_e(ctx, ix):
+    """Broadcast (repeated) values are collapsed only for statistics that do not depend on how often a value is repeated."""
+    R = 'C10.e'
+    ctx.describe(R, 'the array is un-broadcast only for repetition-invariant statistics', floor=1)
+    f = ix.cls('glue.core.data.Data').resolve_func('compute_statistic')
+    stat = f.params[1]
+    pm = parent_map(f.node)
+    sites = [st for st in walk_no_nested(f.node) if isinstance(st, ast.Assign) and isinstance(st.value, ast.Call)
+             and call_name(st.value) == 'unbroadcast' and unparse(st.targets[0]) == 'data']
+    if not sites:
+        raise AnalysisError('Data.compute_statistic: the un-broadcasting of the values is no longer recognised')
+    for st in sites:
+        excluded, unrec = set(), False
+        for g, br in guard_chain(pm, st, f.node):
+            if isinstance(g, ast.If) and br == 'body':
+                ex = _stat_excluded(g.test, stat)
+                if ex == 'unrecognised':
+                    unrec = True
+                elif ex:
+                    excluded |= ex
+        ctx.idiom(R, '%s `%s`' % (f.construct, norm(st)), 'sums are not computed on the un-broadcast array',
+                  accepted=REPETITION_SENSITIVE <= excluded, absent=not unrec,
+                  detail_absent='Data.compute_statistic collapses repeated (broadcast) values with `%s` also for %s: the overall sum of a '
+                                'broadcast attribute (a pixel attribute, a link result) counts each repeated value once instead of '
+                                'once per element' % (norm(st), sorted(REPETITION_SENSITIVE - excluded)),
+                  shape='guards of `%s`' % norm(st), where=where(f, st))
